@@ -249,3 +249,40 @@ package k8s
 //@ func NodeEmpty(node, nodeInfoMap) (r)
 //@   requires node != nil && infoMapOK(nodeInfoMap)
 //@   ensures r <==> nodeEmptyIn(node, nodeInfoMap)
+
+// ---------------------------------------------------------------- listers (the scan's snapshot)
+// What the group's listers returned last (the informer caches are modelled as "any list").
+//@ ghost LNb ref
+//@ ghost LNo int
+//@ ghost LNl int
+//@ ghost LPb ref
+//@ ghost LPo int
+//@ ghost LPl int
+//@ spec listedNodes() []*v1.Node = mkslice(LNb, LNo, LNl, "[]*v1.Node")
+//@ spec listedPods() []*v1.Pod = mkslice(LPb, LPo, LPl, "[]*v1.Pod")
+//@ iface k8s.NodeLister.List(l) (nodes, err)
+//@   modifies LNb, LNo, LNl
+//@   ensures err == nil ==> (forall i :: 0 <= i && i < len(nodes) ==> nodes[i] != nil) && LNb == base(nodes) && LNo == off(nodes) && LNl == len(nodes)
+//@ iface k8s.PodLister.List(l) (pods, err)
+//@   modifies LPb, LPo, LPl
+//@   ensures err == nil ==> (forall i :: 0 <= i && i < len(pods) ==> pods[i] != nil) && LPb == base(pods) && LPo == off(pods) && LPl == len(pods)
+
+//@ spec rlCPU(m ref) qty
+//@ spec rlMem(m ref) qty
+//@ assume func (*k8s.io/api/core/v1.ResourceList).Cpu(rl) (q)
+//@   ensures q != nil && fresh(q) && deref(q) == rlCPU(deref(rl))
+//@ assume func (*k8s.io/api/core/v1.ResourceList).Memory(rl) (q)
+//@   ensures q != nil && fresh(q) && deref(q) == rlMem(deref(rl))
+
+// CreateNodeNameToInfoMap: (contract assumed for now; see DESIGN.md) every listed node has an entry
+// holding that node and all listed pods scheduled on it; entries are well-formed and have a node.
+//@ spec infoHasNode(m map[string]*NodeInfo) bool = forall s string :: has(m, s) ==> m[s] != nil && m[s].node != nil
+//@ assume func CreateNodeNameToInfoMap(pods, nodes) (m)
+//@   ensures m != nil && fresh(m) && infoMapOK(m) && infoHasNode(m)
+//@   ensures forall i :: 0 <= i && i < len(nodes) ==> has(m, nodes[i].Name)
+//@   ensures forall i, j :: 0 <= i && i < len(nodes) && 0 <= j && j < len(pods) && pods[j].Spec.NodeName == nodes[i].Name ==> (exists p :: 0 <= p && p < len(m[nodes[i].Name].pods) && m[nodes[i].Name].pods[p] == pods[j])
+
+//@ assume func CalculatePodsRequestedUsage(pods) (r, err)
+//@   ensures err == nil
+//@ assume func CalculateNodesCapacity(nodes, pods) (r, err)
+//@   ensures err == nil
